@@ -4,7 +4,7 @@ CONSTANTS
   Masks = {1}
   KSValues = {0}
   Keys = {"k1", "k2"}
-  Replicas = {"a"}
+  Replicas = {"a", "b"}
   Lens = {0}
   MKLens = {16}
   TableOn = FALSE
@@ -12,12 +12,12 @@ CONSTANTS
   MaxBatch = 3
   MaxSteps = 10
   MaxFailBatches = 2
-  MaxRestart = 1
+  MaxRestart = 0
   MaxTamper = 2
   MaxEnv = 3
   MaxPause = 2
   MaxSub = 4
-  MaxLead = 0
+  MaxLead = 2
   PubClasses = {"long"}
   Hows = {"b2b"}
   TamperRegs = {"KS"}
